@@ -94,9 +94,13 @@ def check_cases(report, work, vh, prelude, cases, predicates=None, family="eval"
                                           {"VERIF_PRELUDE": prelude}, tag=tag, timeout=timeout, per_shard_min=per_shard_min)
     report.add_tlc(stats)
     mism = []
+    names = {c["id"]: c.get("name") for c in cases if c.get("name")}
+    oom_by = {}
     for rec, v in zip(good, verdicts):
         if "tlc" in v:
             bump("tlc_" + v["tlc"])
+            if rec["id"] in names:
+                oom_by[names[rec["id"]]] = oom_by.get(names[rec["id"]], 0) + len(rec["runs"])
             report.count("out_of_model", len(rec["runs"]))
             report.count("evaluations", len(rec["runs"]))
             continue
@@ -111,8 +115,14 @@ def check_cases(report, work, vh, prelude, cases, predicates=None, family="eval"
                                "outputs": [jqgen.unV(x) for x in run["out"]][:6], "error": run.get("err", None)})
             elif rv["v"] in ("oom", "long"):
                 report.count("out_of_model")
+                if rec["id"] in names:
+                    oom_by[names[rec["id"]]] = oom_by.get(names[rec["id"]], 0) + 1
             elif rv["v"] in ("mismatch", "panic"):
                 mism.append((rec, run, rv))
+    if oom_by:
+        d = report.cov.setdefault("out_of_model_by_name", {})
+        for k, n in oom_by.items():
+            d[k] = d.get(k, 0) + n
     # classification of disagreements: re-execute once (determinism), then known findings
     if mism:
         extra = {c["id"]: {k: v for k, v in c.items() if k not in ("id", "src", "inputs")} for c in cases}
